@@ -20,7 +20,7 @@ var (
 	resPool   = []string{"r1", "r2"}
 	execPool  = []string{"e1", "e2"}
 	procPool  = []string{"w1", "w2"}
-	keyPool   = []string{"", "k1", "k2"}
+	keyPool   = []string{"", "k1", "k2", "<empty>"}
 	dataPool  = []string{"", "x", "yy"}
 )
 
@@ -72,6 +72,9 @@ func (g G) key(l string) *idempotency.Key {
 	k := g.pick(keyPool, l)
 	if k == "" {
 		return nil
+	}
+	if k == "<empty>" {
+		k = "" // present but empty: a key like any other
 	}
 	kk := idempotency.Key(k)
 	return &kk
